@@ -4,6 +4,7 @@ package main
 // non-test, non-simulation repo code of a module.
 
 import (
+	"fmt"
 	"sort"
 	"strings"
 
@@ -209,4 +210,41 @@ func (m *Model) entryFns(keys ...string) map[*ssa.Function]bool {
 		}
 	}
 	return out
+}
+
+// thoroughInventory (thorough tier): state-writing call sites in the packages that the consensus
+// closure excludes (simulation, client, testsuite, mocks, migrations, testutil, tests) are listed
+// as information, so that a writer hiding in a non-obvious package is seen by whoever reads the
+// evidence; C10.CLOSURE is what shows that no call edge leads from the closure into them.
+func thoroughInventory(c *Ctx, e *Env) {
+	var mods []string
+	for mod := range e.models {
+		mods = append(mods, mod)
+	}
+	sort.Strings(mods)
+	for _, mod := range mods {
+		m := e.models[mod]
+		all := BuildInventory(m, true)
+		n := 0
+		byPkg := map[string]int{}
+		for _, s := range all.Sites {
+			why := excludedPkg(fnPkgPath(s.Fn))
+			if why == "" || isCanaryFn(s.Fn) {
+				continue
+			}
+			isWrite := (s.Table != nil && isWriteOp(s.Kind)) || (s.Bank != "" && isBankMutator(s.Bank))
+			if !isWrite {
+				continue
+			}
+			n++
+			byPkg[shortPkg(fnPkgPath(s.Fn))]++
+		}
+		var ps []string
+		for p, k := range byPkg {
+			ps = append(ps, fmt.Sprintf("%s:%d", p, k))
+		}
+		sort.Strings(ps)
+		c.Note(c.Prop+".XPKG", mod+"#writers-outside-closure", "-", fmt.Sprintf("%d state-writing call sites in packages excluded from the consensus closure of %s (%s); they are outside every rule's quantifier and unreachable from it (C10.CLOSURE)", n, mod, strings.Join(ps, ", ")))
+		c.Count("excluded_package_write_sites", n)
+	}
 }
